@@ -41,7 +41,7 @@ Proof.
   rewrite E. clearbody u. clear E. unfold between.
   destruct (Rlt_dec 0 d) as [P | N].
   - split; [intros [H | H] | intros H; left]; nra.
-  - assert (d < 0) by lra. split; [intros [H | H] | intros H; right]; nra.
+  - assert (Dn : d < 0) by lra. split; [intros [H | H] | intros H; right]; nra.
 Qed.
 
 Lemma sbetween_scaled x0 d p q x : d <> 0 -> p <= q ->
@@ -51,7 +51,7 @@ Proof.
   rewrite E. clearbody u. clear E. unfold sbetween.
   destruct (Rlt_dec 0 d) as [P | N].
   - split; [intros [H | H] | intros H; left]; nra.
-  - assert (d < 0) by lra. split; [intros [H | H] | intros H; right]; nra.
+  - assert (Dn : d < 0) by lra. split; [intros [H | H] | intros H; right]; nra.
 Qed.
 
 Lemma between_x a p q x : wf_area a -> p <= q -> (between (cell_x a p) (cell_x a q) x <-> p <= ufrac a x <= q).
@@ -154,7 +154,7 @@ Section FloorCell.
   Hypothesis Hbits : (1 <= bits)%Z.
   Let fcell (a : area R) (x y : R) := cell_of a (wrap_int bits (Zfloor (vfrac a y))) (wrap_int bits (Zfloor (ufrac a x))).
 
-  Lemma cell_of_some a r c r' c' : cell_of a r c = Some (r', c') -> r' = r /\ c' = c /\ (0 <= r < height a)%Z /\ (0 <= c < width a)%Z.
+  Lemma cell_of_some (a : area R) r c r' c' : cell_of a r c = Some (r', c') -> r' = r /\ c' = c /\ (0 <= r < height a)%Z /\ (0 <= c < width a)%Z.
   Proof.
     unfold cell_of. destruct (in_range (height a) r) eqn:Er; destruct (in_range (width a) c) eqn:Ec; cbn; try discriminate.
     intros E. inversion E; subst. apply in_range_true in Er. apply in_range_true in Ec. tauto.
@@ -186,9 +186,9 @@ Section FloorCell.
     destruct (Rlt_dec (IZR (height a)) (vfrac a y)) as [B | B].
     { rewrite (floor_axis_outside bits (vfrac a y) (height a)) by (auto; right; lra). reflexivity. }
     destruct (Rlt_dec (ufrac a x) 0) as [C | C].
-    { rewrite (floor_axis_outside bits (ufrac a x) (width a)) by auto. apply andb_false_r. }
+    { rewrite (floor_axis_outside bits (ufrac a x) (width a)) by auto. rewrite andb_false_r. reflexivity. }
     destruct (Rlt_dec (IZR (width a)) (ufrac a x)) as [D | D].
-    { rewrite (floor_axis_outside bits (ufrac a x) (width a)) by (auto; right; lra). apply andb_false_r. }
+    { rewrite (floor_axis_outside bits (ufrac a x) (width a)) by (auto; right; lra). rewrite andb_false_r. reflexivity. }
     exfalso. apply Hout. lra.
   Qed.
 End FloorCell.
@@ -225,6 +225,10 @@ Lemma bk_outside a x y : wf_area a -> ~ in_extent a x y -> bk_cell RO a x y = No
 Proof. intros H. rewrite bk_cell_R. apply fcell_outside; [lia | exact H]. Qed.
 Lemma bk_xy_spec a x y : bk_xy RO a x y = match bk_cell RO a x y with Some (r, c) => (c, r) | None => ((-1)%Z, (-1)%Z) end.
 Proof. reflexivity. Qed.
+
+Lemma bk_outside_xy a x y : wf_area a -> ~ in_extent a x y ->
+  bk_cell RO a x y = None /\ bk_xy RO a x y = ((-1)%Z, (-1)%Z).
+Proof. intros H Ho. rewrite bk_xy_spec, (bk_outside a x y H Ho). split; reflexivity. Qed.
 
 (* the former code (plain astype(int32)): a point strictly outside the extent gets row 1, column 0 *)
 Lemma grid_trunc_refuted : exists (a : area R) (x y : R),
@@ -327,12 +331,12 @@ Proof.
   rewrite (Rabs_pos_eq (dyR a)) by lra. field. lra.
 Qed.
 
-Lemma ll2cr_point_R a fill x y : wf_area a -> north_up a -> x < 1000000000000000019884624838656 ->
+Lemma ll2cr_point_R a fill x y : wf_area a -> north_up a -> x < big_1e30 RO ->
   ll2cr_point RO a fill x y =
   (arr_of_proj_x RO a x, arr_of_proj_y RO a y, ll_in_grid RO a (arr_of_proj_x RO a x) (arr_of_proj_y RO a y)).
 Proof.
-  intros H N Hx. unfold ll2cr_point. rewrite big_R. cbn [leb RO].
-  replace (Rleb 1000000000000000019884624838656 x) with false by (symmetry; apply Rleb_false; exact Hx).
+  intros H N Hx. unfold ll2cr_point. cbn [leb RO].
+  replace (Rleb (big_1e30 RO) x) with false by (symmetry; apply Rleb_false; exact Hx).
   rewrite ll_col_eq, ll_row_eq by assumption. reflexivity.
 Qed.
 
@@ -343,7 +347,7 @@ Proof.
 Qed.
 
 (* interior of a cell: the fractional indices round to that cell and the point is counted *)
-Lemma ll_cell a fill x y r c : wf_area a -> north_up a -> x < 1000000000000000019884624838656 ->
+Lemma ll_cell a fill x y r c : wf_area a -> north_up a -> x < big_1e30 RO ->
   valid_cell a r c -> in_cell_open a r c x y ->
   exists cf rf, ll2cr_point RO a fill x y = (cf, rf, true) /\ ZnearestE cf = c /\ ZnearestE rf = r
                 /\ Rabs (cf - IZR c) < / 2 /\ Rabs (rf - IZR r) < / 2.
@@ -360,7 +364,7 @@ Proof.
 Qed.
 
 (* strictly outside the extent: the fractional index is more than half a pixel away from every pixel centre of the grid *)
-Lemma ll_outside a fill x y : wf_area a -> north_up a -> x < 1000000000000000019884624838656 -> ~ in_extent a x y ->
+Lemma ll_outside a fill x y : wf_area a -> north_up a -> x < big_1e30 RO -> ~ in_extent a x y ->
   exists cf rf b, ll2cr_point RO a fill x y = (cf, rf, b) /\
     (cf < - / 2 \/ IZR (width a) - / 2 < cf \/ rf < - / 2 \/ IZR (height a) - / 2 < rf).
 Proof.
@@ -375,7 +379,7 @@ Proof.
 Qed.
 
 (* points in the extent are counted in swath_points_in_grid (the count has a margin of 1.5 pixels) *)
-Lemma ll_counted a fill x y : wf_area a -> north_up a -> x < 1000000000000000019884624838656 -> in_extent a x y ->
+Lemma ll_counted a fill x y : wf_area a -> north_up a -> x < big_1e30 RO -> in_extent a x y ->
   snd (ll2cr_point RO a fill x y) = true.
 Proof.
   intros H N Hx Hin. rewrite ll2cr_point_R by assumption. rewrite in_extent_frac in Hin by exact H.
